@@ -190,12 +190,15 @@ CLAIMED.update({
                 "and the check accepts NO verdict change inside it. C01_matrix: matrix_exact_flat / matrix_truth_flat (the matrix pass on "
                 "nested-free trees is exact without multi-cell rows and truth-preserving with them in positive positions, outside "
                 "D18/D19) and scope_all_sound: inside Scope.c01_scope_all ALL SIXTEEN switch sets keep the verdict of every loadable "
-                "rule on every document (55-60 % of the generated rules for the default switches). Outside the scope (nested blocks "
-                "under shake/matrix: D16, D17, D29; D13-D15, D18-D21) the model is tied to the crate by the correspondence: "
+                "rule on every document; C01_nested: shake_1 WITH nested blocks preserves truth whenever its run is safe (shake1_safe, an "
+                "executable predicate that follows the run), scope_nested_sound for whole loaded rules (Scope2.c01_scope_nested, the "
+                "eight switch sets without matrix). The runner marks 52 % (sets with matrix) to 88-100 % (sets without) of the "
+                "generated rules as inside a proved scope. Outside (D13-D17, D20, D21; matrix over nested blocks) the model is tied "
+                "to the crate by the correspondence: "
                 "random rules, forced rules and coverage families x documents x all 16 switch sets, the OPTIMISED TREES compared "
                 "structurally, and every crate-side verdict change must be reproduced by the model AND accepted by the executable "
-                "classifier of a listed finding (D13..D21, D29; Model/Known.v), else it is a VIOLATION.",
-        "note": TB + "PARTIAL proof: preservation by shake_1 / matrix on trees with nested blocks is not proved (D16, D17, D18, D29 show it is false in general). The first versions of several statements were refuted by the proof attempts (counterexamples kept as lemmas).",
+                "classifier of a listed finding (D13..D17, D20, D21; Model/Known.v), else it is a VIOLATION. Repaired in the crate on the way: D4, D18/D19, D22, D29, D33.",
+        "note": TB + "PARTIAL proof: the matrix pass over trees with nested blocks is not proved yet (Pending/C01_matrix_nested.v); D13-D17 show that preservation is false in general. The first versions of several statements were refuted by the proof attempts (counterexamples kept as lemmas).",
         "technique": "Coq proof for coalesce / rewrite / shake_0 / shake_1 (nested-free) and whole loaded rules inside an executable scope + refutation witnesses; executable optimiser model, structural comparison of optimised trees over 16 switch sets with classifier-gated known findings",
     },
     "C08": {
